@@ -183,6 +183,7 @@ void module_antidepends(const char *name, ...)
         if (!other)
             log_message(log_core, LOG_FATAL, "Module %s anti-depends on unloadable module %s.", loading_module->name, name);
         const_string_vector_append(&other->depends, loading_module->name);
+        const_string_vector_append(&loading_module->rdepends, other->name);
     }
     va_end(args);
 }
@@ -305,7 +306,28 @@ void module_close_all(void)
         }
     } while (progress);
 
-    /* Go through and remove any remaining modules. */
+    /* Then the backends, in the same way: one that still has loaded
+     * dependents must outlive them. */
+    do {
+        progress = 0;
+        for (node = set_first(&modules); node; node = next) {
+            next = set_next(node);
+            module = set_node_data(node);
+            if (module->rdepends.used)
+                continue;
+            set_remove(&modules, module, 0);
+            progress = 1;
+        }
+    } while (progress);
+
+    /* Only modules on a dependency cycle are left.  No order suits
+     * them, so forget their edges (which name modules that are about
+     * to go) before removing them. */
+    for (node = set_first(&modules); node; node = set_next(node)) {
+        module = set_node_data(node);
+        const_string_vector_clear(&module->depends);
+        const_string_vector_clear(&module->rdepends);
+    }
     for (node = set_first(&modules); node; node = next) {
         next = set_next(node);
         set_remove(&modules, set_node_data(node), 0);
